@@ -5,6 +5,7 @@ import (
 	"go/constant"
 	"go/types"
 	"strconv"
+	"strings"
 
 	"golang.org/x/tools/go/packages"
 )
@@ -349,12 +350,31 @@ func (c *CEnv) quant(e *CExpr) *Val {
 	}
 	body := in.Formula(e.Args[0])
 	var pats [][]*Term
+	var wits []*Term
 	for _, tg := range e.Trig {
 		var p []*Term
+		isWitness := false
 		for _, te := range tg {
+			if te.Kind == "call" && te.Op == "witness" && len(te.Args) == 1 {
+				// {witness(e)}: a hint for proving this existential; evaluated outside the binder, ignored if it does not resolve
+				isWitness = true
+				func() {
+					defer func() {
+						if r := recover(); r != nil {
+							if _, ok := r.(ctransErr); !ok {
+								panic(r)
+							}
+						}
+					}()
+					wits = append(wits, c.tr(te.Args[0]).T)
+				}()
+				continue
+			}
 			p = append(p, in.tr(te).T)
 		}
-		pats = append(pats, p)
+		if !isWitness {
+			pats = append(pats, p)
+		}
 	}
 	boolTy := types.Typ[types.Bool]
 	if fuelVar != nil {
@@ -379,7 +399,19 @@ func (c *CEnv) quant(e *CExpr) *Val {
 	if e.Op == "forall" {
 		return &Val{T: Forall(vars, pats, Implies(And(guards...), body), "q."+vars[0].Op), Ty: boolTy}
 	}
-	return &Val{T: Exists(vars, pats, And(append(guards, body)...), "q."+vars[0].Op), Ty: boolTy}
+	ex := Exists(vars, pats, And(append(guards, body)...), "q."+vars[0].Op)
+	if len(wits) == len(vars) && ex.Op == "exists" {
+		ok := true
+		for i := range wits {
+			if wits[i] == nil || wits[i].Sort != vars[i].Sort {
+				ok = false
+			}
+		}
+		if ok {
+			ex.Wit = wits
+		}
+	}
+	return &Val{T: ex, Ty: boolTy}
 }
 
 func (c *CEnv) call(e *CExpr) *Val {
@@ -391,6 +423,22 @@ func (c *CEnv) call(e *CExpr) *Val {
 			cfail("%s: missing argument %d", e.Op, i)
 		}
 		return c.tr(e.Args[i])
+	}
+	if i := strings.Index(e.Op, "."); i >= 0 {
+		// qualified spec function / predicate / logic function: alias.name
+		alias, name := e.Op[:i], e.Op[i+1:]
+		if p := c.importNamed(alias); p != nil {
+			if _, ok := w.Specs[p.Name+"."+name]; ok {
+				q := *e
+				q.Op = name
+				in := *c
+				in.Pkg = p
+				return in.callIn(&q, c)
+			}
+			q := *e
+			q.Op = name
+			return c.call(&q)
+		}
 	}
 	switch e.Op {
 	case "old":
@@ -541,6 +589,19 @@ func (c *CEnv) call(e *CExpr) *Val {
 	}
 	cfail("unknown function %s in contract", e.Op)
 	return nil
+}
+
+// callIn applies a spec function resolved in another package's scope; arguments are translated in the caller's environment.
+func (c *CEnv) callIn(e *CExpr, caller *CEnv) *Val {
+	sf := c.w().lookupSpec(e.Op, c.Pkg)
+	if sf == nil {
+		cfail("unknown function %s", e.Op)
+	}
+	var args []*Val
+	for _, a := range e.Args {
+		args = append(args, caller.tr(a))
+	}
+	return caller.X.applySpec(sf, caller.St, args, caller.Reads, caller.Fuel)
 }
 
 func (s *St) alloc() *Term {
